@@ -511,6 +511,7 @@ func generate(c *GenCtx) []Op {
 		genLet(c)
 		genSkeleton(c, 2)
 		genSlices(c)
+		genBoundaryLengths(c)
 	case "C02":
 		genArgs(c)
 		genTyped(c, c.n(20000, 400000), 3)
@@ -530,6 +531,8 @@ func generate(c *GenCtx) []Op {
 	case "C05":
 		genNumbers(c)
 		genOverflow(c)
+		genSumBatch(c)
+		genWrapPairs(c)
 	case "C06":
 		genAlias(c)
 		genRandom(c, "rand", c.n(3000, 50000), 2)
@@ -546,6 +549,7 @@ func generate(c *GenCtx) []Op {
 		genTyped(c, c.n(10000, 200000), 3)
 	case "C09":
 		genCost(c)
+		genDeepData(c)
 	case "C10":
 		genOperators(c)
 		genSkeleton(c, 2)
@@ -555,13 +559,16 @@ func generate(c *GenCtx) []Op {
 		genSlices(c)
 	case "C13":
 		genSort(c)
+		genWrapPairs(c)
 	case "C14":
 		genRepr(c)
+		genWrapPairs(c)
 	case "C15":
 		genCorpus(c)
 		genRandom(c, "rand", c.n(10000, 200000), 3)
 		genProjections(c, c.n(5000, 100000))
 		genTyped(c, c.n(15000, 300000), 3)
+		genBoundaryLengths(c)
 	case "C16":
 		genLiterals(c)
 	case "C17":
@@ -571,11 +578,14 @@ func generate(c *GenCtx) []Op {
 		genTyped(c, c.n(20000, 400000), 3)
 		genOverflow(c)
 		genArgs(c)
+		genBoundaryLengths(c)
 	case "C19":
 		genLet(c)
 	case "C20":
 		genEquality(c)
 		genSkeleton(c, 1)
+		genWrapPairs(c)
+		genDeepData(c)
 	default:
 		genCorpus(c)
 		genRandom(c, "rand", c.n(20000, 400000), 3)
